@@ -349,6 +349,37 @@ C04_Step(pre, ev, post) ==
     (IF ev.act \in Flushing /\ ev.status \in {"OK", "CONT"} /\ post.ss[s].open
         /\ post.ss[s].pend # <<>> THEN {"C04.SyncPointFlushes"} ELSE {})
 
+(* What a session has been told about flags: fv is a set of <<uid, flagset>>,
+   one entry per uid it has received a FETCH FLAGS for since it selected the
+   mailbox.  At its synchronisation points the entries must agree with the
+   server (every change reaches every other selected session by then). *)
+FvTold(fv, items) ==
+    FoldLeft(LAMBDA acc, it :
+                IF it.k = "FETCH" /\ it.hasfl /\ (it.uid # 0 \/ it.suid # 0)
+                THEN LET u == IF it.uid # 0 THEN it.uid ELSE it.suid IN
+                     {e \in acc : e[1] # u} \cup {<<u, Visible(it.fl)>>}
+                ELSE acc,
+             fv, items)
+C04_Fv(s, fv, ev, post) ==
+    LET start == IF ev.sess = s /\ ev.act \in ViewResetting THEN {} ELSE fv
+        f1 == FvTold(FvTold(start, ev.out0[s]), ev.out[s])
+        sel == post.ss[s].sel
+        (* after its own STORE.SILENT the client knows the new value by itself *)
+        f2 == IF ev.sess = s /\ ev.act = "Store" /\ ev.silent /\ ev.status = "OK"
+                 /\ sel # "" /\ Live(post, sel)
+              THEN {e \in f1 : ~\E i \in DOMAIN post.mb[sel].msgs : post.mb[sel].msgs[i].uid = e[1]}
+                   \cup {<<post.mb[sel].msgs[i].uid, Visible(post.mb[sel].msgs[i].fl)>> :
+                            i \in {k \in DOMAIN post.mb[sel].msgs :
+                                      \E e \in f1 : e[1] = post.mb[sel].msgs[k].uid}}
+              ELSE f1
+        bad == IF ev.sess = s /\ ev.act \in Flushing /\ ev.status \in {"OK", "CONT"}
+                  /\ sel # "" /\ Live(post, sel) /\ post.ss[s].open
+                  /\ \E i \in DOMAIN post.mb[sel].msgs :
+                        \E e \in f2 : e[1] = post.mb[sel].msgs[i].uid
+                                      /\ e[2] # Visible(post.mb[sel].msgs[i].fl)
+               THEN {"C04.SyncedFlagsAgree"} ELSE {}
+    IN [fv |-> IF ~post.ss[s].open \/ sel = "" THEN {} ELSE f2, bad |-> bad]
+
 ---------------------------------------------------------------------------
 (* C05 -- removal / addition                                                *)
 
